@@ -282,9 +282,9 @@ func (m *PoolManager) AddPool(pool *Pool) error {
 	// Sync to eBPF map
 	if m.loader != nil {
 		ebpfPool := &ebpf.IPPool{
-			Network:      ebpf.IPToUint32(pool.Network.IP),
+			Network:      ebpf.IPToMapUint32(pool.Network.IP),
 			PrefixLen:    uint8(prefixLen(pool.Network.Mask)),
-			Gateway:      ebpf.IPToUint32(pool.Gateway),
+			Gateway:      ebpf.IPToMapUint32(pool.Gateway),
 			DNSPrimary:   dnsToUint32(pool.DNSServers, 0),
 			DNSSecondary: dnsToUint32(pool.DNSServers, 1),
 			LeaseTime:    uint32(pool.LeaseTime.Seconds()),
@@ -393,5 +393,5 @@ func dnsToUint32(servers []net.IP, index int) uint32 {
 	if index >= len(servers) {
 		return 0
 	}
-	return ebpf.IPToUint32(servers[index])
+	return ebpf.IPToMapUint32(servers[index])
 }
